@@ -10,15 +10,16 @@ Section Entry.
   Variable U : units num.
   Variable K : oracles num.
   Variable minpos : num.
+  Variable rj : bool.
 
-  Lemma entry_passes_eq V c : entry_passes o V c -> try_as_spdc o U K minpos V c = try_as_spdc_steps o U K minpos c.
+  Lemma entry_passes_eq V c : entry_passes o V c -> try_as_spdc o U K minpos rj V c = try_as_spdc_steps o U K minpos rj c.
   Proof. unfold entry_passes, try_as_spdc. intros [-> | ->]; [reflexivity | rewrite andb_false_r; reflexivity]. Qed.
 
-  Lemma entry_no_validation c : try_as_spdc o U K minpos false c = try_as_spdc_steps o U K minpos c.
+  Lemma entry_no_validation c : try_as_spdc o U K minpos rj false c = try_as_spdc_steps o U K minpos rj c.
   Proof. reflexivity. Qed.
 
   (* with the validation in place, rule 3 of the property holds in EVERY auto/explicit combination *)
-  Theorem entry_validation_le c : cfg_le o c = true -> try_as_spdc o U K minpos true c = Err ESignalLePump.
+  Theorem entry_validation_le c : cfg_le o c = true -> try_as_spdc o U K minpos rj true c = Err ESignalLePump.
   Proof. unfold try_as_spdc. intros ->. reflexivity. Qed.
 
   (* scaling both wavelengths by the same unit factor preserves their order (true over R and Q; stated as a law of the carrier) *)
@@ -27,14 +28,24 @@ Section Entry.
 
   (* ... and the three unwrap()s of the "signal <= pump" error become unreachable: only a failed simplex search can panic *)
   Theorem validated_panics_only_search c s :
-    scale_order -> try_as_spdc o U K minpos true c = Panic s -> s = SiteNelderMeadUnwrap.
+    scale_order -> try_as_spdc o U K minpos rj true c = Panic s -> s = SiteNelderMeadUnwrap.
   Proof.
     intros Hlaw. unfold try_as_spdc. cbn [andb]. destruct (cfg_le o c) eqn:Hle; [discriminate |].
-    intros Hp. destruct (panic_sites num o U K minpos c s Hp) as [(signal & Hs & Hle' & _) | ->]; [| reflexivity].
+    intros Hp. destruct (panic_sites num o U K minpos rj c s Hp) as [(signal & Hs & Hle' & _) | ->]; [| reflexivity].
     exfalso. unfold signal_step in Hs. destruct (beam_of_cfg_wavelength num o K _ _ _ _ Hs) as (Hw & _ & _).
     unfold signal_le_pump in Hle'. rewrite Hw in Hle'.
     unfold cfg_pump, pump_of_cfg, set_angles, beam_new in Hle'. cbn [b_wavelength] in Hle'.
     rewrite Hlaw in Hle'. unfold cfg_le in Hle. congruence.
+  Qed.
+  (* never panics, whatever the wavelengths: with the validation in place and no failing simplex search *)
+  Theorem validated_no_panic c :
+    scale_order -> searches_total K -> is_panic (try_as_spdc o U K minpos rj true c) = false.
+  Proof.
+    intros Hlaw Htot. unfold try_as_spdc. cbn [andb]. destruct (cfg_le o c) eqn:Hle; [reflexivity |].
+    apply no_panic_partial; [exact Htot |].
+    intros signal Hs. unfold signal_step in Hs. destruct (beam_of_cfg_wavelength num o K _ _ _ _ Hs) as (Hw & _ & _).
+    unfold signal_le_pump. rewrite Hw. unfold cfg_pump, pump_of_cfg, set_angles, beam_new. cbn [b_wavelength].
+    rewrite Hlaw. exact Hle.
   Qed.
 End Entry.
 
